@@ -13,6 +13,10 @@ CHECKS["C15"] = dict(level="model_checking", design="3/C15",
    technique="TLC exhaustive check of the decoder automaton (CodecMachine.tla) against the declarative RFC 4648 decoder (Codec.tla) + TLC validation of recorded decoder/encoder executions",
    text="TLC checks, for every text up to length 4 (5 thorough) over a 12-character alphabet holding a representative of every character class, every codec/variant, ignore option, capacity and end-pointer option, that the decoder automaton shaped like the C loops returns exactly what the declarative decoder written from RFC 4648 and the documented contract returns (Agree, WithinCapacity, RoundTrip). The real sodium_hex2bin/sodium_base642bin are then run on every text up to length 3 (4 thorough) over a 13..16-character alphabet, every byte value 0..255 in five contexts, mutated valid encodings and long texts, under all 5 codecs x ignore x end pointer x capacity 0..4 with text and output ending at PROT_NONE pages, encoders and round trips for every length 0..70 (300), and TLC judges every record against Codec.tla.",
    note="Trusted: TLC, the driver's projection of call results into records. errno classes and the reported length on failure are not compared (the property does not state them). Bounded text length for the exhaustive parts; longer texts only by mutation sampling.")
+CHECKS["C16"] = dict(level="model_checking", design="3/C16",
+   technique="TLC exhaustive check of the pad/unpad loops (PadMachine.tla) against Pad.tla + TLC validation of recorded executions",
+   text="TLC checks for every buffer over {00,80,01,81} up to 8 (10) bytes and every block size 0..6 (8) that the constant-time pad and unpad loops written out as in the C code return what the declarative ISO 7816-4 definition returns, for every capacity, and that unpad(pad(x)) = len(x). The real functions are run on a sweep of lengths 0..80 (300) x 21 (140) block sizes x capacities around the boundary, markers at every position of the final block with corrupted variants, and exhaustively on all final blocks over {00,80,01} for block sizes <= 6, with buffers ending at PROT_NONE pages and the final block placed against a PROT_NONE page on either side (so a read outside the final block faults); TLC judges every record against Pad.tla.",
+   note="Trusted: TLC and the driver's projection. Block sizes above 65536 are not executed. The overflow/misuse case belongs to C12.")
 NOT_YET = {}
 def main():
     props = [json.loads(l) for l in open(os.path.join(HERE, "properties.jsonl"))]
